@@ -5,6 +5,7 @@
 From Coq Require Import NArith ZArith List Bool.
 From AV Require Import Spec.Io Model.Base Model.Imp Model.Stream Model.Glue Generated.StreamFn Generated.AutoFn Generated.GlueFn
   Generated.IsTerminalFn.
+From AV Require Spec.Choice Generated.Choice Model.Choice Generated.ChoiceFn Proofs.ChoiceGen.
 Import ListNotations.
 Local Open Scope N_scope.
 
@@ -46,4 +47,17 @@ Proof.
         (conj (E _ (or_intror (or_intror (or_intror (or_intror (or_intror (or_introl eq_refl)))))))
         (conj (E _ (or_intror (or_intror (or_intror (or_intror (or_intror (or_intror (or_introl eq_refl))))))))
               (E _ (or_introl eq_refl)))))).
+Qed.
+
+(* the colour decision (tools/gen_fn_choice.py: `raw.is_terminal()` is a boolean parameter of the translated
+   anstream::auto::choice) fed with the polyfill's answer for a handle: the decision list of C09 at "isatty of that handle's
+   own descriptor is non-zero" *)
+Theorem translated_polyfill_choice : forall f, In f g_pf_impls -> forall e user os w,
+  ChoiceFn.g_choice e user (f os w) =
+  match Generated.Choice.ch_to_choice user with
+  | Some g => Some (Model.Choice.choice_model g e (pf_tty os w))
+  | None => None
+  end.
+Proof.
+  intros f H e user os w. rewrite (translated_polyfill_asks_self f H). apply ChoiceGen.translated_choice_is_model.
 Qed.
